@@ -20,6 +20,7 @@ type c06p struct {
 	poster, drawer bool
 	cycles         int
 	refused        bool // a Resume() on the running screen (refused) precedes the shutdown call
+	grown          bool // the window grows while the screen is suspended: the Resume has to report the new size
 	escPending     bool // the last input before the shutdown call is ESC ESC: an Alt prefix is pending and half a sequence buffered
 	transient      bool // the window has another size at the moment of Resume and is back afterwards
 }
@@ -29,7 +30,7 @@ func (p c06p) String() string {
 }
 
 var c06table []c06p
-var c06transient bool
+var c06transient, c06grown bool
 var c06rig *rig
 
 // restoredAtReturn replays everything written up to the moment the shutdown call returned
@@ -141,6 +142,8 @@ func c06Scenarios() []scenario {
 	}
 	add(c06p{op: "suspend", refused: true, cycles: 1, c: 1})
 	// the window is smaller at the moment of Resume and back to its old size right after
+	add(c06p{op: "suspend", cycles: 1, c: 1, grown: true})
+	add(c06p{op: "suspend", cycles: 2, grown: true})
 	add(c06p{op: "suspend", cycles: 1, c: 1, transient: true})
 	add(c06p{op: "suspend-fini", cycles: 1, c: 1, transient: true})
 	for _, cyc := range []int{1, 2} {
@@ -156,6 +159,7 @@ func c06prog(ps string, res *result) func() {
 	p := c06table[idx]
 	return func() {
 		c06transient = p.transient
+		c06grown = p.grown
 		r := newRig(4, 2)
 		s := r.s
 		// ---- deterministic prologue: reach the requested fill levels ----
@@ -224,6 +228,9 @@ func c06prog(ps string, res *result) func() {
 					}
 					if p.transient {
 						r.tty.w--
+					}
+					if p.grown {
+						r.tty.w, r.tty.h = r.tty.w+1, r.tty.h+1 // (nobody is told: the callback is unregistered)
 					}
 					// Init is not the way back from a Suspend: it is refused (it would replace
 					// the channels that pollers of this screen are waiting on)
@@ -340,6 +347,24 @@ func afterResume(r *rig, res *result, cyc int) {
 		res.fail("Resume returned %v", err)
 		return
 	}
+	if c06grown {
+		// the size the screen came back to is reported, whatever else happens afterwards
+		seen := false
+		for k := 0; k < 40 && !seen; k++ {
+			ev := s.PollEvent()
+			if ev == nil {
+				break
+			}
+			if er, ok := ev.(*tcell.EventResize); ok {
+				if w, h := er.Size(); w == r.tty.w && h == r.tty.h {
+					seen = true
+				}
+			}
+		}
+		if !seen {
+			res.fail("the window grew to %dx%d while the screen was suspended (cycle %d); after Resume no resize event with that size is delivered", r.tty.w, r.tty.h, cyc)
+		}
+	}
 	if c06transient {
 		// the window is back at the size the screen knew before the Suspend
 		r.tty.w = w0 + 1
@@ -351,6 +376,9 @@ func afterResume(r *rig, res *result, cyc int) {
 	got := false
 	for k := 0; k < 40 && !got; k++ {
 		ev := s.PollEvent()
+		if er, ok := ev.(*tcell.EventResize); ok && er.When().IsZero() {
+			res.fail("after Suspend/Resume cycle %d a resize event was delivered whose When() is the zero time (before its cause)", cyc)
+		}
 		if ek, ok := ev.(*tcell.EventKey); ok && ek.Rune() == rune(key) {
 			got = true
 			if ek.Modifiers() != 0 {
@@ -370,6 +398,9 @@ func afterResume(r *rig, res *result, cyc int) {
 	for k := 0; k < 40 && !got; k++ {
 		ev := s.PollEvent()
 		if er, ok := ev.(*tcell.EventResize); ok {
+			if er.When().IsZero() {
+				res.fail("after Suspend/Resume cycle %d a resize event was delivered whose When() is the zero time (before its cause)", cyc)
+			}
 			if w, h := er.Size(); w == r.tty.w && h == r.tty.h {
 				got = true
 			}
